@@ -100,7 +100,14 @@ def ctl_specs(depth, terminals=TERMINALS, prefixes=PREFIXES, nlocals=(0, 1, 2), 
                             yield (chain, t, nl, pf, pa)
 
 
+_SMALL_CACHE = {}
+
+
 def small_programs(tier):
+    """smallest-bound slices of the generated program spaces, fed to the differential checks (C05, C06, C12, C13, C14):
+    every k-th control-flow skeleton plus evenly spaced specs of the reference-model checks' own spaces"""
+    if tier in _SMALL_CACHE:
+        return _SMALL_CACHE[tier]
     out = []
     k = 0
     for spec in ctl_specs(2, terminals=["break", "return", "raise", "send_recv"], prefixes=["none", "ternary", "send"], nlocals=(1,), params=(0, 2),
@@ -110,4 +117,23 @@ def small_programs(tier):
             continue
         src = ctl_program(*spec)
         out.append(("ctl:%s" % (spec,), {"/v/main.lay": src}, "/v/main.lay"))
+    import importlib
+    per = 150 if tier == "thorough" else 40
+    for name in ("c02", "c03", "c04", "c10", "c11", "c17", "c18"):
+        try:
+            mod = importlib.import_module("checks." + name)
+            chk = getattr(mod, name.upper())()
+            specs = list(chk.gen("quick"))
+        except Exception:
+            continue
+        stride = max(1, len(specs) // per)
+        for i in range(0, len(specs), stride):
+            try:
+                cases, _ = chk.build(specs[i])
+            except Exception:
+                continue
+            c = cases[0]
+            files = c.get("files") or {"/v/main.lay": c.get("src", "")}
+            out.append(("%s:%d" % (name, i), files, c.get("entry", "/v/main.lay")))
+    _SMALL_CACHE[tier] = out
     return out
